@@ -200,7 +200,7 @@ def run(pid, tier, seed, replay_only=None):
     search_targets = []
     for q in prop.get('functions', []):
         c = C.CONTRACTS[q]
-        if c.opts.get('native', True) is False:
+        if c.opts.get('native', True) is False or c.trusted:
             continue
         search_targets.append(c)
     for c in search_targets:
